@@ -20,7 +20,7 @@ def run(m, chk):
         "knot vector; the degree setter dispatches times>0 to degree_increase(times) and times<0 to degree_decrease(-times); degree_increase / apply commit last; no divisor on the elevation path is a bare node "
         "parameter (interior knot 0); the committed state depends on times, knot vector, points and weights. That elevation preserves the function and raises multiplicities by exactly t is not decided."
     )
-    chk.decides = ["GATE-TOL", "N", "ARG-FLOW", "X-ESCAPE", "DISPATCH(degree setter)", "COMMIT-LAST", "D", "DEP-MAY", "fresh knot-vector copy", 'PRECHECK', 'MEMO-KEY (no value-keyed memoisation on the elevation / reduction path)']
+    chk.decides = ["GATE-TOL", "N", "ARG-FLOW", "X-ESCAPE", "DISPATCH(degree setter)", "COMMIT-LAST", "D", "DEP-MAY", "fresh knot-vector copy", 'PRECHECK', 'MEMO-KEY (no value-keyed memoisation on the elevation / reduction path)', 'WEIGHT-HOMOG', 'OPEN-NODES (the fit behind degree_decrease integrates with open nodes)']
     chk.not_decided = ["elevation preserves the function", "multiplicities raised by exactly t", "reduction is the exact inverse"]
     tolerance_gate(r, chk)
     rule_n(r, chk)
@@ -65,6 +65,12 @@ def run(m, chk):
     r.commit_last("COMMIT-LAST", "curves.BaseCurve.apply")
     no_inplace_elem(r, chk, ["curves.BaseCurve.apply"])
     from .extra import memo_key, precheck_weights
+    from .homog import weight_homog
+
+    weight_homog(r, chk, ["curves.Curve.fit_curve", "curves.BaseCurve.update", "curves.BaseCurve.apply"])
+    from .c10 import open_nodes
+
+    open_nodes(r, chk, "heavy.LeastSquare.func2func")
 
     memo_key(r, chk, entries=[C + "degree_increase", C + "degree_decrease"])
 
